@@ -27,3 +27,4 @@ def run(ctx):
     H.r15_5_decisions(ctx)
     H.r14_6_get_attribute_guarded(ctx, 'R15.6', transforms=True)
     H.r14_10_get_value_typestate(ctx, 'R15.7')
+    H.r14_11_built_nodes(ctx, 'R15.8')
